@@ -29,7 +29,9 @@ CONSTANTS NNames,       \* size of the parameter-name alphabet (2: {a, b}; 3: {a
           POSITIONAL,   \* _griffe.diff._POSITIONAL              (extracted from the repo)
           POSKWONLY,    \* _griffe.diff._POSITIONAL_KEYWORD_ONLY (extracted from the repo)
           VARIADIC,     \* _griffe.diff._VARIADIC                (extracted from the repo)
-          Emit          \* "all" | "canon" | "none": which pairs are printed as CASE lines
+          OldDomain,    \* "all" | "canon" | "pick": which old signatures Init chooses from
+          Pick,         \* "pick": set of indices into SigSeq (seeded sample drawn by the driver)
+          Emit          \* BOOLEAN: print the signature table and every pair as CASE lines
 
 NameSeq == <<"a", "b", "c">>                 \* canonical order of names
 Names == {NameSeq[i] : i \in 1..NNames}      \* the parameter-name alphabet
@@ -162,16 +164,24 @@ CauseName(t) == CASE t = <<VP, PO>> -> "vp>po" [] t = <<VP, PK>> -> "vp>pk" [] t
                   [] t = <<VK, PO>> -> "vk>po" [] t = <<VK, PK>> -> "vk>pk" [] t = <<VK, KO>> -> "vk>ko"
                   [] t = <<KO, PK>> -> "ko>pk" [] t = <<PO, PK>> -> "po>pk" [] OTHER -> "none"
 \* the first uncovered transition present in the pair (fixed priority order), "none" when there is none
+\* ... and one family without any transition: a NEW optional positional-or-keyword parameter (it takes a
+\* positional argument that used to go elsewhere while its name used to be swallowed by **kwargs)
+AddedOptionalPK(old, new) ==
+  \E j \in 1..Len(new) : new[j].name \notin NamesOf(old) /\ new[j].kind = PK /\ new[j].default # None
 Cause(old, new) ==
   LET ts == Transitions(old, new)
       hit == {i \in 1..Len(Uncovered) : Uncovered[i] \in ts}
-  IN IF hit = {} THEN "none" ELSE CauseName(Uncovered[CHOOSE i \in hit : \A j \in hit : i <= j])
+  IN IF hit # {} THEN CauseName(Uncovered[CHOOSE i \in hit : \A j \in hit : i <= j])
+     ELSE IF AddedOptionalPK(old, new) THEN "new>pk" ELSE "none"
 
 \* ---- canonical old signatures (used only to thin the CASE output of the 3-name alphabet; the model
 \*      itself is checked on every pair): names appear in alphabet order and only the default d1 is
 \*      used.  Every pair is the image of a pair with canonical old signature under a renaming of
 \*      parameter names and a per-name swap of d1/d2, under which PyBinds and Breakages are invariant.
 Canon(s) == \A i \in 1..Len(s) : s[i].name = NameSeq[i] /\ s[i].default # "d2"
+OldIdx == IF OldDomain = "all" THEN 1..N
+          ELSE IF OldDomain = "canon" THEN {i \in 1..N : Canon(SigSeq[i])}
+          ELSE Pick \cap (1..N)
 
 \* ---- state -----------------------------------------------------------------------------------------
 VARIABLES oi, ni,        \* the case: indices of the old / new signature in SigSeq (ni = 0: not chosen yet)
@@ -184,7 +194,7 @@ VARIABLES oi, ni,        \* the case: indices of the old / new signature in SigS
 vars == <<oi, ni, pc, brk, breaking, witness, must, differ, cause>>
 
 Init ==
-  /\ oi \in 1..N /\ ni = 0 /\ pc = "old"
+  /\ oi \in OldIdx /\ ni = 0 /\ pc = "old"
   /\ brk = {} /\ breaking = FALSE /\ witness = <<>> /\ must = {} /\ differ = {} /\ cause = "none"
 
 \* find_breaking_changes(old module, new module) on one public function f, and CPython on the same pair
@@ -223,12 +233,12 @@ I_RefSane == Done => /\ (oi = ni => ~breaking)
                      /\ (breaking => /\ PyBinds(SigSeq[oi], witness) /\ ~PyBinds(SigSeq[ni], witness))
 
 \* ---- enumeration ----------------------------------------------------------------------------------
-EmitSig ==
-  (Emit # "none" /\ pc = "old") =>
-     PrintT(<<"CASE", ToJson([t |-> "sig", i |-> oi, sig |-> SigSeq[oi], canon |-> Canon(SigSeq[oi]),
-                              binds |-> BindTable[oi]])>>)
+\* the signature table (index, parameters, set of call shapes CPython binds), printed once at start-up
+ASSUME Emit => \A i \in 1..N :
+         PrintT(<<"CASE", ToJson([t |-> "sig", i |-> i, sig |-> SigSeq[i], canon |-> Canon(SigSeq[i]),
+                                  binds |-> BindTable[i]])>>)
 EmitPair ==
-  (Done /\ (Emit = "all" \/ (Emit = "canon" /\ Canon(SigSeq[oi])))) =>
+  (Emit /\ Done) =>
      PrintT(<<"CASE", ToJson([t |-> "pair", o |-> oi, n |-> ni, b |-> brk, x |-> breaking, w |-> witness,
                               m |-> must, d |-> differ, c |-> cause])>>)
 =============================================================================
